@@ -68,7 +68,7 @@ def run(ctx):
             ndarray.account(ctx, st, s)
             ndarray.report_fails(ctx, s, "C02")
     index_ops(ctx)
-    ndarray.big_arrays(ctx, ("footprint", "bulk"))
+    ndarray.big_arrays(ctx, ("footprint", "bulk", "value"))
     run_traces(ctx, C02_EVENTS, "C02", 150 if ctx.quick else 2500, 40)
     ctx.assumptions += ["test values are small non-negative integers (exact in all 8 element types)",
                         "two-array operations on overlapping views are only generated when the order of element transfers cannot matter (the statement does not say whether a memmove-style fast path or the sequential definition wins there)",
